@@ -43,12 +43,12 @@ register("C14", _load_c14, {"quick": {"runs": 24000, "wall": 90},
 
 
 def _load_c15():
-    from .props.c15 import C15A
-    return [C15A()]
+    from .props.c15 import C15A, C15B, C15C
+    return [C15A(), C15B(), C15C()]
 
 
-register("C15", _load_c15, {"quick": {"runs": 3000, "wall": 90},
-                            "thorough": {"runs": 100000, "wall": 1200}})
+register("C15", _load_c15, {"quick": {"runs": 16000, "wall": 120},
+                            "thorough": {"runs": 400000, "wall": 1800}})
 
 
 # ------------------------------------------------------------------ worker
